@@ -1365,6 +1365,27 @@ func (m *machine) selectInstr(fr *frame, instr *ssa.Select) value {
 			}
 		}
 		cands := append(append([]int(nil), ready...), timers...)
+		if _, off := m.side["timers-off"]; off && len(ready) == 0 && len(timers) > 0 && instr.Blocking && m.multi() {
+			// the harness excluded timer expiry on this path: wait for a ready case
+			anyReady := func() bool {
+				for _, s := range states {
+					if s.ch != nil && s.dir != types.SendOnly && (len(s.ch.buf) > 0 || s.ch.closed) {
+						return true
+					}
+					if s.ch != nil && s.dir == types.SendOnly && len(s.ch.buf) < s.ch.cap {
+						return true
+					}
+				}
+				return false
+			}
+			if m.blockOn("select", anyReady) {
+				continue
+			}
+		}
+		if len(ready) > 0 {
+			// a really ready case wins over a timer that has not fired yet
+			timers = nil
+		}
 		if len(ready) == 0 && len(timers) > 0 && instr.Blocking && m.multi() {
 			// nothing is ready yet: either the timer fires now or this goroutine waits
 			// and lets the others run (the timer may still fire later)
@@ -1463,7 +1484,11 @@ func (m *machine) chooseN(n int, what string) int {
 		}
 	}
 	m.trace = append(m.trace, decision{Kind: 'c', V: uint64(v)})
-	m.nondets = append(m.nondets, nondetRec{Name: fmt.Sprintf("n%d_choose", len(m.nondets)), Term: m.ctx.BV(uint64(v), 64), Kind: "choose", Extra: n})
+	kind := "choose"
+	if what != "Choose" {
+		kind = "internal" // engine-internal choice (select, timer): not consumed by the native replay
+	}
+	m.nondets = append(m.nondets, nondetRec{Name: fmt.Sprintf("n%d_%s", len(m.nondets), kind), Term: m.ctx.BV(uint64(v), 64), Kind: kind, Extra: n})
 	return v
 }
 
